@@ -406,8 +406,16 @@ Fixpoint select_vhost (vs : list vhost) (host : string) : option vhost :=
       end
   end.
 
+(* ignore_port_in_host_matching: the part of the authority from the first ':' on is dropped
+   (no IPv6 literals among the authorities considered) *)
+Fixpoint strip_port (s : string) : string :=
+  match s with
+  | EmptyString => EmptyString
+  | String c s' => if Ascii.eqb c ":" then EmptyString else String c (strip_port s')
+  end.
+
 Definition eval_rc (vs : list vhost) (q : request) : option action :=
-  match select_vhost vs (lower (q_authority q)) with
+  match select_vhost vs (strip_port (lower (q_authority q))) with
   | Some v => eval_routes (vh_routes v) q
   | None => None
   end.
@@ -617,9 +625,34 @@ Definition vs_applies (svcs : list (string * list N)) (p : N) (h : string)
   mem h (map lower (fst v))
   && (is_svc svcs p h || N.eqb p 80 || existsb (fun h' => is_svc svcs p (lower h')) (fst v)).
 
+(* which host an authority denotes for a proxy in namespace [ns] of a cluster.local Kubernetes
+   mesh: a trailing dot and the port are dropped; "name" is name.<ns>.svc.cluster.local (the
+   proxy's OWN namespace), "name.ns2" and "name.ns2.svc" are completed; anything else is itself *)
+Fixpoint dots (s : string) : nat :=
+  match s with
+  | EmptyString => O
+  | String c s' => if Ascii.eqb c "." then S (dots s') else dots s'
+  end.
+
+Definition strip_dot (s : string) : string :=
+  match srev s with String "." r => srev r | _ => s end.
+
+Definition denotes (ns h : string) : string :=
+  let h := strip_dot (strip_port h) in
+  if suffix ".svc.cluster.local" h then h
+  else if suffix ".svc" h then h ++ ".cluster.local"
+  else match dots h with
+       | O => h ++ "." ++ ns ++ ".svc.cluster.local"
+       | S O => h ++ ".svc.cluster.local"
+       | _ => h
+       end.
+
 Definition mesh_sem (c : ctx) (svcs : list (string * list N)) (vss : list (list string * list rule))
            (q : request) : option action :=
-  let h := lower (q_authority q) in
+  (* the alternative names exist for registry services of this port only; a VirtualService host
+     outside the registry is an opaque name matched literally *)
+  let lit := strip_port (lower (q_authority q)) in
+  let h := if is_svc svcs (c_port c) (denotes (c_ns c) lit) then denotes (c_ns c) lit else lit in
   match find (vs_applies svcs (c_port c) h) vss with
   | Some v => vs_sem c (snd v) q
   | None =>
@@ -627,6 +660,68 @@ Definition mesh_sem (c : ctx) (svcs : list (string * list N)) (vss : list (list 
       | Some s => Some (ADist [({| ck_port := c_port c; ck_subset := ""; ck_host := fst s |}, 1%N)])
       | None => None
       end
+  end.
+
+(* ------------------------------------------------------------------ gateway-level specification *)
+
+(* a match block without request conditions (what IsCatchAllRoute recognises): routes of such
+   blocks are documented to be tried after every other route of the virtual host *)
+Definition is_uncond (m : hmatch) : bool :=
+  match m_uri m with
+  | None => true
+  | Some (SPrefix p) => String.eqb p "/"
+  | Some (SRegex r) => String.eqb r ".*"
+  | Some (SExact _) => false
+  end
+  && match m_headers m, m_without m, m_query m with [], [], [] => true | _, _, _ => false end
+  && match m_method m, m_authority m, m_scheme m with None, None, None => true | _, _, _ => false end.
+
+(* like [vs_sem], and says whether the block that decided is unconditional *)
+Fixpoint first_block (c : ctx) (q : request) (ms : list hmatch) : option bool :=
+  match ms with
+  | [] => None
+  | m :: ms' => if match_holds c q m then Some (is_uncond m) else first_block c q ms'
+  end.
+
+Fixpoint vs_sem2 (c : ctx) (rules : list rule) (q : request) : option (action * bool) :=
+  match rules with
+  | [] => None
+  | r :: rest =>
+      match rl_match r with
+      | [] => Some (action_means c (rl_action r), true)
+      | ms => match first_block c q ms with
+              | Some u => Some (action_means c (rl_action r), u)
+              | None => vs_sem2 c rest q
+              end
+      end
+  end.
+
+(* several rule lists merged on one virtual host: conditional blocks of all of them in order,
+   then the unconditional ones *)
+Definition merged_sem (rs : list (option (action * bool))) : option action :=
+  match find (fun r => match r with Some (_, false) => true | _ => false end) rs with
+  | Some (Some (a, _)) => Some a
+  | _ => match find (fun r => match r with Some (_, true) => true | _ => false end) rs with
+         | Some (Some (a, _)) => Some a
+         | _ => None
+         end
+  end.
+
+Record gw_vs := { gv_hosts : list string; gv_gateways : list string; gv_rules : list rule }.
+
+(* A request received by a gateway workload on the port of [c]: the Gateway whose server lists the
+   authority decides the gateway name the match blocks are checked against; the VirtualServices
+   bound to that Gateway and naming the authority apply, oldest first. *)
+Definition gw_sem (c : ctx) (gws : list (string * list string)) (vss : list gw_vs) (q : request)
+  : option action :=
+  let h := strip_port (lower (q_authority q)) in
+  match find (fun g => mem h (map lower (snd g))) gws with
+  | None => None
+  | Some g =>
+      let c' := {| c_port := c_port c; c_labels := c_labels c; c_ns := c_ns c;
+                   c_gateways := [fst g]; c_tls := c_tls c; c_services := c_services c |} in
+      merged_sem (map (fun v => vs_sem2 c' (gv_rules v) q)
+                      (filter (fun v => mem (fst g) (gv_gateways v) && mem h (map lower (gv_hosts v))) vss))
   end.
 
 End Sem.
